@@ -345,7 +345,7 @@ fn check_issuer_subpackets(ctx: &mut Ctx, sig_body: &[u8], ref_fp: &[u8], ref_id
 pub fn run(ctx: &mut Ctx) {
     // ------------------------------------------------------------------------------------
     // Family A: library-generated certificates, many seeds per fast algorithm
-    let per_alg = ctx.qt(60u64, 8000u64);
+    let per_alg = ctx.qt(250u64, 8000u64);
     let mut specs: Vec<Spec> = vec![];
     for s in zoo::signer_specs(true) {
         specs.push(s);
@@ -395,7 +395,7 @@ pub fn run(ctx: &mut Ctx) {
     // report the reference hash for whatever it accepts. v3 RSA, v4/v6 RSA with odd bit lengths,
     // DSA/ElGamal shaped MPIs, native 25519/448 material, unknown algorithms with opaque material
     // (bodies > 255 and, for v6, > 65535 octets).
-    let nb = ctx.qt(600u64, 400000u64);
+    let nb = ctx.qt(9000u64, 400000u64);
     for i in 0..nb {
         if !ctx.mine() {
             continue;
